@@ -177,6 +177,15 @@ def hyp_settings(max_examples, shrink=True, steps=None):
     return settings(**kw)
 
 
+def _escaping():
+    """Exception classes that may escape from a check body through the code under test: ordinary exceptions and the
+    interrupt-style exception that simulated service code raises (a BaseException). When one of them passed through
+    frames of the code under test and the check did not expect it, the behaviour differs from what the oracle
+    allows: a violation, not a harness error."""
+    from pbt.values import Interrupt
+    return (Exception, Interrupt)
+
+
 def hyp_search(ctx, strategy, body, max_examples, label='', shrink=True):
     """Run body(case) over cases drawn from strategy. body raises Violation when the oracle fails.
     The shrunk failing case (Hypothesis replays the minimal one last) is reported through ctx.violation.
@@ -193,7 +202,7 @@ def hyp_search(ctx, strategy, body, max_examples, label='', shrink=True):
         except Violation as v:
             holder['case'], holder['msg'], holder['clause'] = (v.case if v.case is not None else case), str(v), v.clause
             raise
-        except Exception as e:  # pylint: disable=broad-except
+        except _escaping() as e:  # pylint: disable=broad-except
             tb = sys.exc_info()[2]
             if _from_src(tb):
                 holder['case'] = case
@@ -233,7 +242,7 @@ def run_machine(ctx, machine_cls, max_examples, steps, label='', shrink=True):
     except Violation as v:
         ctx.violation(holder.get('history', []), str(v), v.clause)
         return False
-    except Exception as e:  # pylint: disable=broad-except
+    except _escaping() as e:  # pylint: disable=broad-except
         from hypothesis.errors import Flaky
         if isinstance(e, Flaky) and 'violation' in holder:
             hist, msg, clause = holder['violation']
@@ -258,7 +267,7 @@ def guarded(ctx, case, body):
         return True
     except Violation as v:
         ctx.violation(case, str(v), v.clause)
-    except Exception as e:  # pylint: disable=broad-except
+    except _escaping() as e:  # pylint: disable=broad-except
         tb = sys.exc_info()[2]
         if not _from_src(tb):
             raise
